@@ -59,6 +59,7 @@ def c06(tier):
         mint_h('VHarnessMintQuoteC06', 'mint quote: arbitrary amount/unit/limits', must_reach=('mint-quote-accepted', 'mint-quote-refused'), **kw),
         mint_h('VHarnessMeltQuoteC06', 'melt quote: real invoice or garbage, optional MPP', must_reach=('melt-quote-accepted', 'melt-quote-refused'), **kw),
         mint_h('VHarnessQueryC06', 'checkstate / restore: 0..2 arbitrary entries; 2+1+2 arbitrary rows', must_reach=('checkstate-ok', 'restore-ok'), **kw),
+        mint_h('VHarnessSigAllSwapP2PK', 'melt of a genuine SIG_ALL P2PK input (refused: whole-database comparison), then its swap', summaries=('h2c', 'nut10'), must_reach=('helpers-accepted', 'unsigned-rejected')),
     ]
 def c15(tier):
     return [
@@ -143,16 +144,20 @@ def c18(tier):
                w_h('VHarnessSendWide', 'Send end to end: 1..3 proofs of 2^0..2^4', must_reach=('sent',), timeout_s=3000)]
     return hs
 def c19(tier):
-    return [w_h('VHarnessWalletMint', 'mint tokens: stored counter symbolic (< 2^30), quote amount 1..11, mint signs or refuses', must_reach=('minted', 'mint-failed')),
+    return [w_h('VHarnessWalletReceive', 'receive a token of the own mint: 1..2 proofs of 2^0..2^3, ppk in {0,100,1000}, stored counter symbolic < 2^30', must_reach=('received', 'receive-failed')),
+            w_h('VHarnessWalletMint', 'mint tokens: stored counter symbolic (< 2^30), quote amount 1..11, mint signs or refuses', must_reach=('minted', 'mint-failed')),
             w_h('VHarnessWalletMintThenSend', 'mint 8 then send 1..8 through a swap', must_reach=('sent',)),
             w_h('VHarnessRestoreDense', 'restore from the mnemonic: the first three 100-output batches each hold a signed output; both keysets scanned; blinded messages of distinct (secret, r) pairs assumed distinct', must_reach=('restored',), summaries=('h2c', 'dleq', 'padd-inj'), timeout_s=1800),
             w_h('VHarnessRestore', 'restore from the mnemonic: signed pattern over the first 4 batches of 100 outputs (2^4 patterns), both keysets scanned; blinded messages of distinct (secret, r) pairs assumed distinct', must_reach=('restored',), summaries=('h2c', 'dleq', 'padd-inj'), timeout_s=1800)]
 def c08(tier):
-    return [w_h('VHarnessWalletMint', 'mint tokens', must_reach=('minted',)),
+    return [w_h('VHarnessWalletReceive', 'receive a token of the own mint: 1..2 proofs of 2^0..2^3, ppk in {0,100,1000}, stored counter symbolic < 2^30', must_reach=('received', 'receive-failed')),
+            w_h('VHarnessWalletMint', 'mint tokens', must_reach=('minted',)),
             w_h('VHarnessWalletMintThenSend', 'mint (proofs stored with DLEQ e,s,r) then send through a swap', must_reach=('sent',)),
             w_h('VHarnessWalletMelt', 'melt: 1..2 held proofs with/without stored DLEQ data, each payment outcome', must_reach=('melt-outcome-0',))]
 def c17(tier):
-    return [w_h('VHarnessWalletMelt', 'melt: 1..2 held proofs of 2^0..2^3, amount 1..8, reserve 0..2, ppk in {0,100,1000}, outcome paid/pending/failed, pending then settled either way', must_reach=('melt-outcome-0', 'melt-outcome-1', 'melt-outcome-2', 'melt-resolved')),
+    return [w_h('VHarnessWalletReceive', 'receive a token of the own mint: 1..2 proofs of 2^0..2^3, ppk in {0,100,1000}, stored counter symbolic < 2^30', must_reach=('received', 'receive-failed')),
+            w_h('VHarnessWalletReclaim', 'reclaim / remove-spent: 1..2 pending proofs of 2^0..2^2, each handed out or locked in a melt, each UNSPENT / SPENT / PENDING at the mint, ppk in {0,1000}', must_reach=('reconciled-0', 'reconciled-1')),
+            w_h('VHarnessWalletMelt', 'melt: 1..2 held proofs of 2^0..2^3, amount 1..8, reserve 0..2, ppk in {0,100,1000}, outcome paid/pending/failed, pending then settled either way', must_reach=('melt-outcome-0', 'melt-outcome-1', 'melt-outcome-2', 'melt-resolved')),
             w_h('VHarnessWalletMint', 'mint tokens', must_reach=('minted',)),
             w_h('VHarnessWalletMintThenSend', 'mint then send through a swap', must_reach=('sent',))]
 def c20(tier):
